@@ -1,9 +1,10 @@
-CONSTANTS Keys = {"a", "b"}
+CONSTANTS Keys = {"a"}
           NHol = 2
           NWk = 1
           NLo = 1
           NHi = 1
           ConAdjs = {"p"}
+          ConFull = TRUE
           Rich = FALSE
           MaxObj = 3
           Depth = 0
